@@ -186,13 +186,19 @@ def host_case(draw):
     return {"cols": cols, "rows": rows, "ops": ops}
 
 
+def shared_row(lcd, stt):
+    """Two animations on one row repaint each other's cells: step detection by row content is ambiguous there."""
+    return sum(1 for o in lcd.animations.values() if o.row == stt.row and o.active) > 1 or sum(1 for o in lcd.animations.values() if o.row == stt.row) > 1
+
+
 def eval_host(case):
     from Reduino.Displays import LCD
 
     mk = lambda b, e, o: {"bucket": b, "case": case, "expected": str(e), "observed": str(o)}
     cols, rows = case["cols"], case["rows"]
     lcd = LCD(i2c_addr=0x27, cols=cols, rows=rows)
-    steps = {}     # animation key -> list of last_tick values at each step
+    steps = {}     # animation key -> times of the ticks at which the animation visibly stepped
+    sigs = {}
     counts = {}
     anim_rows = set()
     for i, op in enumerate(case["ops"]):
@@ -214,10 +220,16 @@ def eval_host(case):
                 return "FAIL", [mk("host-frame-touches-other-row", f"row {r} untouched", lcd.buffer[r])]
         for key, stt in lcd.animations.items():
             tl = steps.setdefault(key, [])
-            if op["op"] in ("tick", "tick_none") and stt.last_tick and (not tl or tl[-1] != stt.last_tick):
-                if tl and tl[-1] > 0 and stt.last_tick - tl[-1] < stt.speed_ms:
-                    return "FAIL", [mk("host-steps-faster-than-speed_ms", f">= {stt.speed_ms} ms", f"{stt.last_tick - tl[-1]} ms")]
-                tl.append(stt.last_tick)
+            sig = (stt.offset, stt.visible, stt.show, stt.cycles, stt.active)  # the animation's own state: a change = one step
+            prev_sig = sigs.get(key)
+            sigs[key] = sig
+            if op["op"] == "tick" and prev_sig is not None and sig != prev_sig:
+                # this animation stepped at time `now`
+                if tl and tl[-1] > 0 and op["now"] - tl[-1] < stt.speed_ms and not shared_row(lcd, stt):
+                    return "FAIL", [mk("host-steps-faster-than-speed_ms", f">= {stt.speed_ms} ms between steps of {stt.animation}", f"{op['now'] - tl[-1]} ms (at {tl[-1]} and {op['now']})")]
+                tl.append(op["now"])
+            elif op["op"] == "tick_none" and prev_sig is not None and sig != prev_sig:
+                tl.append(0)
             if op["op"] == "tick" and stt.active is False:
                 counts.setdefault(key, len(tl))
             b = bound(len(stt.text), cols)
